@@ -302,6 +302,10 @@ impl<V> IntMap<u32, V> {
         ensures final(self)@ == old(self)@.insert(k, v),
     { unimplemented!() }
     #[verifier::external_body]
+    pub fn len(&self) -> (r: usize)
+        ensures r == self@.dom().len(),
+    { unimplemented!() }
+    #[verifier::external_body]
     pub fn get(&self, k: &u32) -> (r: Option<&V>)
         ensures (r is Some) == self@.contains_key(*k), r is Some ==> *(r->0) == self@[*k],
     { unimplemented!() }
